@@ -417,6 +417,25 @@ func (x *Exec) registerLib() {
 		}
 		return res, true
 	}, mods: noMods}
+	// reflect accessors without a functional model: no effect, unconstrained result (sound for
+	// frame reasoning; nothing can be proved about the value)
+	for _, n := range []string{"(reflect.Value).Addr", "(reflect.Value).Interface", "(reflect.Value).Elem", "(reflect.Value).Type",
+		"(github.com/cosmos72/gomacro/xreflect.Value).Addr", "(github.com/cosmos72/gomacro/xreflect.Value).Interface"} {
+		name := n
+		if _, dup := x.lib[name]; dup {
+			continue
+		}
+		x.lib[name] = &libFn{apply: func(f *Frame, st *State, ins ssa.Instruction, args []Value) (Value, bool) {
+			x.note("library spec: " + name + " has no effect (result unconstrained)")
+			fn := x.curCallee
+			res := fn.Signature.Results()
+			var rs []Value
+			for i := 0; i < res.Len(); i++ {
+				rs = append(rs, x.freshValue("rv_"+fn.Name(), res.At(i).Type()))
+			}
+			return resultValue(rs), true
+		}, mods: noMods}
+	}
 	x.lib["(*github.com/cosmos72/gomacro/base/output.Output).Warnf"] = noeffect
 	x.lib["(*github.com/cosmos72/gomacro/base/output.Output).Debugf"] = noeffect
 	x.lib["(*github.com/cosmos72/gomacro/base/output.Stringer).Errorf"] = noret
